@@ -5,7 +5,7 @@ OCAML = S.OCAML
 GO = S.GO
 FAMILIES = "mixed,reload,state,sdsender,big".split(",")
 PROP = "props/C18.v"
-PROOFS = ["proofs/SupInv.v"]
+PROOFS = ["proofs/SupInv.v", "proofs/SupStop.v", "proofs/SupTrig.v", "proofs/SupGate.v", "proofs/SupOnce.v", "proofs/SupReload.v", "proofs/SupCensus.v"]
 
 
 def run(run):
